@@ -964,7 +964,7 @@ class JsonAnySuite(Suite):
         for c, h in zip(cases, ho):
             if is_crash(h):
                 continue
-            key = c.meta["gid"]
+            key = (c.meta["gid"], c.meta["text"], c.meta["lim"])       # the bytes themselves are part of the key: extra rounds (source drift) restart the numbering
             res = " ".join(h.split(" ")[:2])
             if key in by and by[key][0] != res:
                 out.append(("jsonany:source-dependent", "same bytes %r give '%s' through reader %d and '%s' through reader %d" % (
@@ -1696,6 +1696,8 @@ class JsonDocSuite(Suite):
         if "LEAK" in h:
             return ("jsondoc:leak", "blocks left after the document was destroyed: " + case.line[:100])
         code, over = f[0], f[3]
+        if ":?" in f[1] or "?:" in f[1]:
+            return ("jsondoc:member-without-key-or-value", "the document left holds a member without key or value: %s on %s" % (f[1][:80], case.line[:100]))
         failed = "!" in log
         if failed and (over != "o=1" or code == "Ok"):
             return ("jsondoc:unreported-failure", "an allocation failed but the result is %s %s: %s" % (code, over, case.line[:100]))
